@@ -203,6 +203,22 @@ func (e *Env) Storage(sc []byte) map[string][]byte {
 	return out
 }
 
+// PatchStorage writes one raw storage entry of a contract account (used to configure a contract beyond
+// what the hard-coded test node configuration allows, e.g. a longer unbond period)
+func (e *Env) PatchStorage(sc, key, val []byte) {
+	acc, err := e.Tpn.AccntState.LoadAccount(sc)
+	if err != nil {
+		panic(err)
+	}
+	ua := acc.(state.UserAccountHandler)
+	if err := ua.DataTrieTracker().SaveKeyValue(key, val); err != nil {
+		panic(err)
+	}
+	if err := e.Tpn.AccntState.SaveAccount(ua); err != nil {
+		panic(err)
+	}
+}
+
 // SortedKeys of a storage map
 func SortedKeys(m map[string][]byte) []string {
 	ks := make([]string, 0, len(m))
